@@ -13,6 +13,8 @@ theorem schedStep_priv (w : World) : (schedStep w).privileged = w.privileged := 
   unfold schedStep; split; rfl; split; rfl; split <;> rfl
 theorem schedStep_log (w : World) : (schedStep w).log = w.log := by
   unfold schedStep; split; rfl; split; rfl; split <;> rfl
+theorem schedStep_avail (w : World) : (schedStep w).seccompAvailable = w.seccompAvailable := by
+  unfold schedStep; split; rfl; split; rfl; split <;> rfl
 theorem schedStep_locked (w : World) (h : w.lockCount ≠ 0) : schedStep w = w := by
   unfold schedStep; simp [h]
 theorem schedStep_cur_live (w : World) (h : w.cur ∈ w.live) : (schedStep w).cur ∈ (schedStep w).live := by
@@ -36,7 +38,8 @@ inductive FilterOutcome (flags : Nat) (uargs : Option Prog) (w : World) : Nat ×
   | declined (e : Nat) (he : e ≠ 0)
       (hwhy : flags &&& knownFlags ≠ flags ∨ uargs = none ∨
         (∃ p, uargs = some p ∧ (p.ok = false ∨ p.len = 0 ∨ p.len > BPF_MAXINSNS)) ∨
-        (((schedStep w).thr (schedStep w).cur).nnp = false ∧ w.privileged = false)) :
+        (((schedStep w).thr (schedStep w).cur).nnp = false ∧ w.privileged = false) ∨
+        w.seccompAvailable = false) :
       FilterOutcome flags uargs w
         (0, e, { schedStep w with log := .seccomp (schedStep w).cur 1 flags uargs :: w.log })
   /-- thread-sync refused: positive return value, errno 0, nothing attached -/
@@ -47,6 +50,7 @@ inductive FilterOutcome (flags : Nat) (uargs : Option Prog) (w : World) : Nat ×
         (t + 1, 0, { schedStep w with log := .seccomp (schedStep w).cur 1 flags uargs :: w.log })
   /-- attached to the calling thread only -/
   | attachedOne (p : Prog) (hp : uargs = some p) (hok : p.ok = true ∧ p.len ≠ 0 ∧ p.len ≤ BPF_MAXINSNS)
+      (havail : w.seccompAvailable = true)
       (hflags : flags &&& knownFlags = flags)
       (hts : flags &&& FLAG_TSYNC = 0)
       (hpriv : ((schedStep w).thr (schedStep w).cur).nnp = true ∨ w.privileged = true) :
@@ -55,6 +59,7 @@ inductive FilterOutcome (flags : Nat) (uargs : Option Prog) (w : World) : Nat ×
           { (schedStep w).thr (schedStep w).cur with filters := p.id :: ((schedStep w).thr (schedStep w).cur).filters })
   /-- attached to every live thread (thread-sync) -/
   | attachedAll (p : Prog) (hp : uargs = some p) (hok : p.ok = true ∧ p.len ≠ 0 ∧ p.len ≤ BPF_MAXINSNS)
+      (havail : w.seccompAvailable = true)
       (hflags : flags &&& knownFlags = flags)
       (hts : flags &&& FLAG_TSYNC ≠ 0)
       (hsync : ∀ t ∈ w.live, t ≠ (schedStep w).cur →
@@ -73,6 +78,14 @@ theorem sysSeccomp_filter (flags : Nat) (uargs : Option Prog) (w : World) :
   unfold sysSeccomp
   simp only [SECCOMP_SET_MODE_STRICT, SECCOMP_SET_MODE_FILTER, Nat.succ_ne_zero, if_false, if_true,
     schedStep_log, show (1 : Nat) ≠ 0 from by decide]
+  split
+  · rename_i h0
+    have h0' : w.seccompAvailable = false := by simpa [schedStep_avail] using h0
+    exact .declined ENOSYS (by decide) (.inr (.inr (.inr (.inr h0'))))
+  rename_i h0
+  have havail : w.seccompAvailable = true := by
+    have : ¬ w.seccompAvailable = false := by simpa [schedStep_avail] using h0
+    simpa using this
   by_cases h1 : flags &&& knownFlags ≠ flags
   · rw [if_pos h1]
     exact .declined EINVAL (by decide) (.inl h1)
@@ -98,7 +111,7 @@ theorem sysSeccomp_filter (flags : Nat) (uargs : Option Prog) (w : World) :
           · exact Nat.le_of_not_gt (fun h => h2 (.inr (.inr h)))
         by_cases h3 : (!(((schedStep w).thr (schedStep w).cur).nnp || (schedStep w).privileged)) = true
         · rw [if_pos h3]
-          refine .declined EACCES (by decide) (.inr (.inr (.inr ?_)))
+          refine .declined EACCES (by decide) (.inr (.inr (.inr (.inl ?_))))
           simp only [Bool.not_eq_true', Bool.or_eq_false_iff, schedStep_priv] at h3
           exact h3
         · rw [if_neg h3]
@@ -121,7 +134,7 @@ theorem sysSeccomp_filter (flags : Nat) (uargs : Option Prog) (w : World) :
                 simp only [schedStep_thr, Bool.and_eq_true, bne_iff_ne, ne_eq, Bool.not_eq_true', not_and,
                   Bool.not_eq_false] at this
                 exact this htc
-              have := FilterOutcome.attachedAll (w := w) p rfl hok (by simpa using h1) h4 hsync hpriv
+              have := FilterOutcome.attachedAll (w := w) p rfl hok havail (by simpa using h1) h4 hsync hpriv
               simpa only [schedStep_live, schedStep_thr] using this
           · rw [if_neg h4]
-            exact .attachedOne p rfl hok (by simpa using h1) (by simpa using h4) hpriv
+            exact .attachedOne p rfl hok havail (by simpa using h1) (by simpa using h4) hpriv
